@@ -4183,6 +4183,7 @@ iwrc iwkv_cursor_del(struct iwkv_cursor *cur, iwkv_opflags opflags) {
     }
 
     lx->key = &key;
+    lx->dblk.addr = 0; // the cursor's lookup context is long lived: read the database block afresh
     rc = _lx_del_sblk_lw(lx, sblk, cur->cnpos);
     lx->key = 0;
 
@@ -4192,6 +4193,7 @@ finish2:
     } else {
       rc = _lx_release(lx);
     }
+    lx->dblk.addr = 0; // do not keep a copy of the database block between calls
     if (key.data) {
       _kv_val_dispose(&key);
     }
